@@ -288,21 +288,25 @@ func runC11(r *hk.Run) {
 				as = append(as, h)
 				hs = append(hs, h.render())
 			}
+			mode := rng.Intn(4)
 			if k == 4 {
-				pol, coqPol, name = req.AllowedHostRedirectPolicy(hs...), "(PAllowedHost "+hk.CoqStrList(hs)+")", "allowedhost"
+				coqPol, name = "(PAllowedHost "+hk.CoqStrList(hs)+")", "allowedhost"
+				pol = mkAllowed(false, hs, mode)
 				for _, h := range as {
 					if oracleHostname(h) == oracleHostname(t) {
 						want = true
 					}
 				}
 			} else {
-				pol, coqPol, name = req.AllowedDomainRedirectPolicy(hs...), "(PAllowedDomain "+hk.CoqStrList(hs)+")", "alloweddomain"
+				coqPol, name = "(PAllowedDomain "+hk.CoqStrList(hs)+")", "alloweddomain"
+				pol = mkAllowed(true, hs, mode)
 				for _, h := range as {
 					if oracleDomain(h) == oracleDomain(t) {
 						want = true
 					}
 				}
 			}
+			r.Count(fmt.Sprintf("policy.allowed.slice-mode=%d", mode))
 		}
 		got := pol(mkReq(t.render()), viaReqs) == nil
 		r.Count("policy=" + name)
